@@ -921,6 +921,19 @@ func (env *SpecEnv) call(e *Expr) (SV, error) {
 			return SV{}, fmt.Errorf("alive: pointer-like argument expected")
 		}
 		return SV{t: tLe(x.t, env.st.alloc), typ: boolT}, nil
+	case "newer":
+		// newer(p): p denotes an object allocated since the entry of the function under verification
+		if err := need(1); err != nil {
+			return SV{}, err
+		}
+		x, err := argv(0)
+		if err != nil {
+			return SV{}, err
+		}
+		if x.t.Sort != sortInt || env.f.root.entry == nil {
+			return SV{}, fmt.Errorf("newer: pointer-like argument expected")
+		}
+		return SV{t: tGt(x.t, env.f.root.entry.alloc), typ: boolT}, nil
 	case "in_range":
 		if err := need(2); err != nil {
 			return SV{}, err
